@@ -13,6 +13,9 @@ type Spec struct {
 	Args  []string `json:"args"`            // argv[1:]
 	Cwd   string   `json:"cwd"`             // simulated working directory (absolute)
 	FS    []Node   `json:"fs"`              // initial file system
+	// HeldOpen: standard input and HTTP bodies never report end of file - the peer has sent everything but
+	// keeps the stream open; a read at the end of the data blocks for ever (the run ends as "blocked-read").
+	HeldOpen bool `json:"held_open,omitempty"`
 	Stdin []byte   `json:"stdin,omitempty"` // simulated standard input
 	Web   []WebEnt `json:"web,omitempty"`   // virtual web served to http.DefaultTransport
 
@@ -72,6 +75,8 @@ type WebEnt struct {
 //	"lost"          a write reports success but the bytes never reach the file and
 //	                the later Close reports EIO (deferred write error)
 //	"neterr"        an HTTP round trip / body read fails with a transport error
+//	"stall"         a read on stdin / an HTTP body that would report end of file blocks for ever instead (the
+//	                peer has sent everything but keeps the stream open): the run ends as non-termination
 type Fault struct {
 	Step int    `json:"step"`
 	Kind string `json:"kind"`
@@ -112,7 +117,7 @@ type Result struct {
 	Panic       string         `json:"panic,omitempty"`
 	Stack       string         `json:"stack,omitempty"`
 	Overrun     bool           `json:"overrun,omitempty"`      // tick or heap budget exhausted (bounded liveness)
-	OverrunKind string         `json:"overrun_kind,omitempty"` // "ticks" or "memory"
+	OverrunKind string         `json:"overrun_kind,omitempty"` // "ticks", "memory" or "blocked-read"
 	Steps       int            `json:"steps"`
 	Ticks       int            `json:"ticks"`            // I/O steps + map iterations (the unit of the liveness budget)
 	MapEvents   int            `json:"map_events"`       // events over >=2 keys
